@@ -20,6 +20,14 @@ func plyHx(b []byte) string {
 	return hex.EncodeToString(b)
 }
 
+// NaN payloads are not observable through Lean's Float.toBits (canonical NaN); non-finite values are outside the property
+func plyF(v float64) string {
+	if v != v {
+		return "7ff8000000000000"
+	}
+	return F(v)
+}
+
 func plyHs(s string) string { return plyHx([]byte(s)) }
 
 
@@ -89,7 +97,7 @@ func plyMeshBody(m modeling.Mesh) string {
 		for _, comps := range a.data {
 			for _, v := range comps {
 				sb.WriteByte(' ')
-				sb.WriteString(F(v))
+				sb.WriteString(plyF(v))
 			}
 		}
 	}
